@@ -366,17 +366,21 @@ func vC33_share() {
 	// every item of the share is in exactly one request
 	for i := 0; i < nA; i++ {
 		c := 0
-		for q := 0; q < len(requests); q++ {
-			c += vC33_countA(requests[q].GetActors(), actors[i])
+		for q := 0; q < 4; q++ {
+			if q < len(requests) {
+				c += vC33_countA(requests[q].GetActors(), actors[i])
+			}
 		}
-		vAssert(c == 1, "every actor of a share is in exactly one batch request")
+		vAssert(c == 1 && len(requests) <= 4, "every actor of a share is in exactly one batch request")
 	}
 	for i := 0; i < nG; i++ {
 		c := 0
-		for q := 0; q < len(requests); q++ {
-			c += vC33_countG(requests[q].GetGrains(), grains[i])
+		for q := 0; q < 4; q++ {
+			if q < len(requests) {
+				c += vC33_countG(requests[q].GetGrains(), grains[i])
+			}
 		}
-		vAssert(c == 1, "every grain of a share is in exactly one batch request")
+		vAssert(c == 1 && len(requests) <= 4, "every grain of a share is in exactly one batch request")
 	}
 
 	w.relocateShare(context.Background(), requests, peers[0], peers, failures)
@@ -387,25 +391,26 @@ func vC33_share() {
 	for i := 0; i < nA; i++ {
 		a := actors[i]
 		delivered, reported, local := 0, 0, 0
-		for c := 0; c < vC33_calls; c++ {
-			if vC33_log[c].ok {
+		for c := 0; c < 12; c++ {
+			if c < vC33_calls && vC33_log[c].ok {
 				delivered += vC33_countA(vC33_log[c].req.GetActors(), a)
 			}
-			if vC33_log[c].bad == a {
+			if c < vC33_calls && vC33_log[c].bad == a {
 				reported++
 			}
 		}
-		for c := 0; c < vC33_nLocalA; c++ {
-			if vC33_localA[c] == a {
+		for c := 0; c < 4; c++ {
+			if c < vC33_nLocalA && vC33_localA[c] == a {
 				local++
 			}
 		}
 		inFailed := 0
-		for c := 0; c < len(fa); c++ {
-			if fa[c] == a.GetAddress() {
+		for c := 0; c < 8; c++ {
+			if c < len(fa) && fa[c] == a.GetAddress() {
 				inFailed++
 			}
 		}
+		vAssert(len(fa) <= 8, "failure list stays within the harness bound")
 		vAssert(delivered+local <= 1, "an actor is handed to at most one node")
 		vAssert(inFailed == reported+(1-delivered-local), "an actor is listed as failed exactly when no node accepted it, or the accepting peer reported it failed - and only once")
 		if delivered == 0 && local == 0 {
@@ -421,18 +426,18 @@ func vC33_share() {
 	for i := 0; i < nG; i++ {
 		g := grains[i]
 		delivered, local, released, relFailed := 0, 0, 0, 0
-		for c := 0; c < vC33_calls; c++ {
-			if vC33_log[c].ok {
+		for c := 0; c < 12; c++ {
+			if c < vC33_calls && vC33_log[c].ok {
 				delivered += vC33_countG(vC33_log[c].req.GetGrains(), g)
 			}
 		}
-		for c := 0; c < vC33_nLocalG; c++ {
-			if vC33_localG[c] == g {
+		for c := 0; c < 4; c++ {
+			if c < vC33_nLocalG && vC33_localG[c] == g {
 				local++
 			}
 		}
-		for c := 0; c < vC33_nReleased; c++ {
-			if vC33_released[c] == g {
+		for c := 0; c < 4; c++ {
+			if c < vC33_nReleased && vC33_released[c] == g {
 				released++
 				if vC33_relFailed[c] {
 					relFailed++
@@ -440,11 +445,12 @@ func vC33_share() {
 			}
 		}
 		inFailed := 0
-		for c := 0; c < len(fg); c++ {
-			if fg[c] == g.GetGrainId().GetValue() {
+		for c := 0; c < 8; c++ {
+			if c < len(fg) && fg[c] == g.GetGrainId().GetValue() {
 				inFailed++
 			}
 		}
+		vAssert(len(fg) <= 8, "failure list stays within the harness bound")
 		vAssert(delivered+local <= 1, "a grain is handed to at most one node")
 		if eager[i] {
 			vAssert(released == 0 && inFailed == 1-delivered-local, "an eager grain is listed as failed exactly when no node accepted it, once")
@@ -460,8 +466,8 @@ func vC33_share() {
 
 func vC33_countA(list []*internalpb.Actor, x *internalpb.Actor) int {
 	c := 0
-	for i := 0; i < len(list); i++ {
-		if list[i] == x {
+	for i := 0; i < 3; i++ { // lists in this harness hold at most 3 items (constant bound: no loop-feasibility queries)
+		if i < len(list) && list[i] == x {
 			c++
 		}
 	}
@@ -470,8 +476,8 @@ func vC33_countA(list []*internalpb.Actor, x *internalpb.Actor) int {
 
 func vC33_countG(list []*internalpb.Grain, x *internalpb.Grain) int {
 	c := 0
-	for i := 0; i < len(list); i++ {
-		if list[i] == x {
+	for i := 0; i < 3; i++ {
+		if i < len(list) && list[i] == x {
 			c++
 		}
 	}
